@@ -169,6 +169,14 @@ func mm(sig, format string, a ...any) *space.Mismatch {
 	return &space.Mismatch{Sig: sig, What: fmt.Sprintf(format, a...)}
 }
 
+// tag appends the start state to a report (the engine records it only as a number).
+func tag(start string, m *space.Mismatch) *space.Mismatch {
+	if m != nil && !strings.Contains(m.What, " [start: ") {
+		m.What += " [start: " + start + "]"
+	}
+	return m
+}
+
 // ---------------------------------------------------------------- main
 
 func main() {
